@@ -9,9 +9,12 @@ def cases(tier):
     cfgs = [(8, 1, 1, 1), (8, 4, 4, 1), (4, 2, 4, 2), (64, 1, 1, 1)] if tier == 'quick' else [(8, 1, 1, 1), (8, 4, 4, 1), (4, 2, 4, 2), (64, 1, 1, 1), (16, 8, 8, 1), (2, 2, 2, 6), (32, 2, 2, 3), (64, 4, 4, 1)]
     for (n, m, cap, x) in cfgs:
         maxv = (1 << n) - 1
+        # more than 128 symbolic witness bits make the h-coefficient query (the only one that needs b*b = b) too slow here: larger
+        # configurations run with concrete values (bits constants), everything else symbolic
+        VAL = 'sym' if n * m <= 128 else None
         for j in range(m):
             base_prom = [('sym' if jj == j else None) for jj in range(m)]
-            base = {'m': m, 'cap': cap, 'values': 'sym', 'promises': base_prom}
+            base = {'m': m, 'cap': cap, 'values': VAL, 'promises': base_prom if VAL else [('5' if p_ == 'sym' else p_) for p_ in base_prom]}
             # (a) one promise substituted at verification time -> refused, residual not identically zero
             for repl in (({'op': 'promise', 'j': j, 'value': 'sym', 'concrete': '13'} if n >= 4 else {'op': 'promise', 'j': j, 'value': 'other'}),
                          {'op': 'promise', 'j': j, 'value': None}, {'op': 'promise', 'j': j, 'value': 'other'}):
@@ -26,7 +29,7 @@ def cases(tier):
             # (a') None <-> Some(0) is the same statement
             for (pp, repl) in ((None, '0'), ('0', None)):
                 proms = [(pp if jj == j else ('sym' if jj == (j + 1) % m and m > 1 else None)) for jj in range(m)]
-                cfg = {'scenario': 'batch', 'n': n, 'x': x, 'members': [{'m': m, 'cap': cap, 'values': 'sym', 'promises': proms, 'tamper_statement': {'op': 'promise', 'j': j, 'value': repl}}],
+                cfg = {'scenario': 'batch', 'n': n, 'x': x, 'members': [{'m': m, 'cap': cap, 'values': VAL, 'promises': proms if VAL else [('5' if p_ == 'sym' else p_) for p_ in proms], 'tamper_statement': {'op': 'promise', 'j': j, 'value': repl}}],
                        'actions': ['VerifyOnly', 'RecoverAndVerify']}
                 out.append({'cfg': cfg, 'kind': 'equivalent', 'name': 'promise %d: %s -> %s n%d m%d x%d' % (j, pp, repl, n, m, x)})
             # the verifier refuses a promise that does not fit the bit length, at every position, in every mode
